@@ -295,6 +295,42 @@ def insertEvDesc (e : Event) : List Event → List Event
 def historyShort (s : State) (id : Int) : List Event :=
   (s.hist.filter (fun h => h.id == id)).foldr insertEvDesc []
 
+/-! ### journal long-poll (rpc_handler.go RawGetJournal / broadcastJournal) -/
+
+/-- a parked `metadata.getJournalnew` request: which client (harness token) and its `From` -/
+structure Waiter where
+  client : Nat
+  since : Nat
+deriving DecidableEq, Repr
+
+/-- the per-client trim of broadcastJournal: `for len(ev) != 0 && ev[0].Version <= args.From { ev = ev[1:] }` -/
+def trimSeen (since : Nat) (page : List Entity) : List Entity := page.dropWhile (fun e => decide (e.version ≤ since))
+
+def minSince : List Waiter → Nat
+  | [] => 0
+  | [w] => w.since
+  | w :: ws => min w.since (minSince ws)
+
+/-- `h.db.JournalEvents(ctx, minVersion, 100)` of broadcastJournal -/
+def broadcastPage (s : State) (ws : List Waiter) : List Entity :=
+  if ws.isEmpty then [] else journal s (minSince ws) 100
+
+def answered (page : List Entity) (w : Waiter) : Bool := !(trimSeen w.since page).isEmpty
+
+/-- broadcastJournal: (clients still parked, replies as (client, events)); every reply carries
+    CurrentVersion = version of the last event of the page, which is also the last event of the reply -/
+def broadcast (s : State) (ws : List Waiter) : List Waiter × List (Nat × List Entity) :=
+  (ws.filter (fun w => !answered (broadcastPage s ws) w),
+   (ws.filter (answered (broadcastPage s ws))).map (fun w => (w.client, trimSeen w.since (broadcastPage s ws))))
+
+/-- RawGetJournal: an immediate reply when something newer than `From` exists (or the client set return-if-empty),
+    otherwise the request is parked (both JournalEvents calls of the handler see the same state: one model step) -/
+def subscribe (s : State) (ws : List Waiter) (client since : Nat) (limit : Int) (returnIfEmpty : Bool) :
+    List Waiter × Option (List Entity) :=
+  if !(journal s since limit).isEmpty then (ws, some (journal s since limit))
+  else if returnIfEmpty then (ws, some [])
+  else (ws ++ [{ client := client, since := since }], none)
+
 /-! ### mappings and flood limits -/
 
 def u32 (x : Nat) : Nat := x % two32
